@@ -161,6 +161,12 @@ def key_agreement(ctx, rule):
                 ctx.check(rets == [KEY], rule, cl.path, "key=(dst_line,dst_col)", "the %s orders tokens by (generated line, generated column)" % who, ctx.site(cl), detail=str(rets))
     ctx.floor(rule, "types::SourceMap", "ordering-key closures", n, 3)
     lb = ctx.body(LOOKUP)
+    # every token lookup_token hands out is the one greatest_lower_bound selected
+    GL = "try(utils::greatest_lower_bound(arg1.tokens,tuple(arg2,arg3),closure:lookup_token::{closure#0}))"
+    toks = [lb.expr_of_rvalue(s["rv"]) for bi, si, s, it in lb.locations() if not it and s["k"] == "assign" and s["rv"]["k"] == "agg" and s["rv"].get("adt") == "types::Token"]
+    ok = len(toks) == 1 and q.shape(toks[0].field("raw")) == GL + ".1" and q.shape(toks[0].field("idx")) == GL + ".0" and q.shape(toks[0].field("sm")) == "arg1"
+    ctx.check(ok, rule, LOOKUP, "result=glb", "the token returned by lookup_token is exactly the element (and index) greatest_lower_bound selected, on every path (no shortcut around the search)",
+              detail=str([q.shape(t)[:160] for t in toks]))
     calls = [t for bi, t in lb.calls() if q.callee_matches(t, GLB)]
     ok = len(calls) == 1 and q.shape(q.arg_expr(lb, calls[0], 1)) == "tuple(arg2,arg3)" and q.shape(q.arg_expr(lb, calls[0], 0)) == "arg1.tokens"
     ctx.check(ok, rule, LOOKUP, "query=(line,col)", "lookup_token searches self.tokens for the query (line, col) in that order")
